@@ -133,13 +133,26 @@ class SourceToSourceFileImportsTransformation(SourceToSourceTransformationBase):
             text = block.pretty_print(params=params)
             if (not text and result
                 and isinstance(block, SourceToSourceImportBlockTransformation)
-                and str(FileText(result[-1]).joined).endswith("\\\n")):
+                and self._ends_with_line_continuation(result[-1])):
                 # The import block was the continuation of a line ending in
                 # a backslash ("x = 1; \\" / "import foo") and is empty now;
                 # keep that line terminated.
                 text = "\n"
             result.append(text)
         return FileText.concatenate(result)
+
+    @staticmethod
+    def _ends_with_line_continuation(text):
+        """
+        Return whether ``text`` ends with a code line that is continued by a
+        backslash.  A comment line that merely ends in a backslash is not a
+        continuation.
+        """
+        joined = str(FileText(text).joined)
+        if not joined.endswith("\\\n"):
+            return False
+        last_line = joined[:-1].rsplit("\n", 1)[-1]
+        return re.sub("#.*", "", last_line).rstrip() != ""
 
     def find_import_block_by_lineno(self, lineno: int):
         """
